@@ -18,6 +18,14 @@ Conds == {Bin(">", A, Num(3)), Bin("<=", A, Num(4)), Bin("==", A, Num(5)), Bin("
           Bin(">", Bin("+", A, B), Num(3)), Bin("&&", Bin(">", A, Num(0)), Bin(">", B, Num(0))), Bin("||", Bin(">", A, Num(4)), Bin("<", B, Num(1))),
           A, Bin("*", A, B), Bin("-", A, Num(4)), CondE(Bin(">", A, Num(3)), B), Un("!", A), Bin(">", Num(4), A)}
 Scalar == {P6("scalar", <<InA, InB, Place("e", pr, 0, 0), Enable("e", c)>>, <<>>) : pr \in Protos, c \in Conds}
+\* the same conditions with BOTH inputs on one signal type (operands must then be told apart by wire colour), plus constant-on-the-left
+\* comparisons and conditional values in every position
+InB2 == SIn("b", "signal-A", 2)
+Conds2 == {Bin(">", A, B), Bin("<", A, B), Bin(">", Bin("+", A, B), Num(3)), Bin("*", A, B), CondE(Bin(">", A, Num(3)), B), CondE(Bin("<", Num(5), A), B),
+           CondE(Bin(">=", Num(10), A), B), CondE(Bin("<", Num(3), A), Num(1)), Bin("<", Num(5), A), Bin("&&", Bin("<", Num(2), A), Bin(">", Num(9), B)),
+           CondE(Bin("!=", Num(0), A), B), Bin("-", A, B)}
+SameT == {P6("samet", <<InA, InB2, Place("e", pr, 0, 0), Enable("e", c)>>, <<>>) : pr \in {"small-lamp", "inserter"}, c \in Conds2}
+     \cup {P6("samet", <<InA, InB, Place("e", "small-lamp", 0, 0), Enable("e", c)>>, <<>>) : c \in Conds2}
 \* several entities sharing sources; the same condition on two entities; condition value also exported
 Multi == {
   P6("multi", <<InA, InB, Place("e", "small-lamp", 0, 0), Place("f", "inserter", 3, 0), Enable("e", Bin(">", A, Num(3))), Enable("f", Bin(">", A, Num(3)))>>, <<>>),
@@ -46,7 +54,7 @@ Cont == {
   P6("cont", <<Chest("c", 0, 0), Chest("k", 2, 0), SLet("Bundle", "tot", BLit(<<EOut("c"), EOut("k")>>)), SLet("Bundle", "navg", Bin("/", Ref("tot"), Num(-2))),
                SLet("Bundle", "in1", BLit(<<Ref("navg"), EOut("c")>>)), Place("e", "inserter", 5, 0), Enable("e", Bin("<", AnyE(Ref("in1")), Num(0)))>>, CI("c") \o CI("k"))
  }
-C06All == Scalar \cup Multi \cup Cont
+C06All == Scalar \cup SameT \cup Multi \cup Cont
 
 (* ------------------------------- C09 ------------------------------------ *)
 P9(grp, stmts) == [grp |-> grp, stmts |-> stmts, src |-> Render(stmts)]
@@ -77,12 +85,25 @@ Funcs == {
                SFunc("outer", <<[ty |-> "int", n |-> "x"]>>, <<SExpr(CallE("inner", <<Ref("x")>>)), SExpr(CallE("inner", <<Bin("+", Ref("x"), Num(2))>>))>>, <<>>),
                SExpr(CallE("outer", <<Num(0)>>)), SExpr(CallE("outer", <<Num(6)>>))>>)
  }
+\* parameters / callee locals named like something in the CALLER's scope (loop iterator, global int, caller entity)
+Shadow9 == {
+  P9("shadow", <<SFunc("lamp_at", <<[ty |-> "int", n |-> "i"]>>, <<SPlace("e", "small-lamp", Ref("i"), Num(0), <<>>)>>, <<>>),
+                 SFor("i", IRange(Num(0), Num(3), Num(0)), <<SExpr(CallE("lamp_at", <<Bin("+", Ref("i"), Num(4))>>))>>)>>),
+  P9("shadow", <<SInt("x", Num(3)), SFunc("chest_at", <<[ty |-> "int", n |-> "x"], [ty |-> "int", n |-> "row"]>>, <<SPlace("c", "steel-chest", Bin("+", Ref("x"), Num(1)), Ref("row"), <<>>)>>, <<>>),
+                 SExpr(CallE("chest_at", <<Num(10), Num(0)>>)), SExpr(CallE("chest_at", <<Bin("*", Ref("x"), Num(5)), Num(2)>>))>>),
+  P9("shadow", <<SInt("x", Num(3)), SInt("y", Num(7)), SFunc("at", <<[ty |-> "int", n |-> "y"], [ty |-> "int", n |-> "x"]>>, <<SPlace("c", "small-lamp", Ref("x"), Un("-", Ref("y")), <<>>)>>, <<>>),
+                 SExpr(CallE("at", <<Ref("x"), Ref("y")>>)), SExpr(CallE("at", <<Num(1), Num(2)>>))>>),
+  P9("shadow", <<SFunc("inner", <<[ty |-> "int", n |-> "i"]>>, <<SPlace("e", "small-lamp", Bin("*", Ref("i"), Num(2)), Num(6), <<>>)>>, <<>>),
+                 SFor("i", IList(<<5, 1>>), <<SFor("j", IRange(Num(0), Num(2), Num(0)), <<SExpr(CallE("inner", <<Bin("+", Ref("i"), Ref("j"))>>))>>)>>)>>),
+  P9("shadow", <<SPlace("e", "steel-chest", Num(0), Num(4), <<>>), SFunc("mk", <<[ty |-> "int", n |-> "x"]>>, <<SPlace("e", "small-lamp", Ref("x"), Num(0), <<>>)>>, <<>>),
+                 SExpr(CallE("mk", <<Num(2)>>)), SExpr(CallE("mk", <<Num(4)>>))>>)
+ }
 Mixed == {
   P9("mixed", <<InA, InB, SLet("Signal", "r", Bin("+", Bin("*", A, B), Num(1))), Place("e", "small-lamp", 0, 0), Enable("e", Bin(">", Ref("r"), Num(3))), Place("f", "steel-chest", 20, 0),
                 Place("g", "inserter", 21, 0)>>),
   P9("mixed", <<InA, SFor("i", IRange(Num(0), Num(4), Num(0)), <<SPlace("e", "small-lamp", Bin("*", Ref("i"), Num(2)), Num(0), <<>>), SProp("e", "enable", Bin(">", A, Ref("i")))>>)>>)
  }
-C09All == Single \cup Props9 \cup Loops \cup Funcs \cup Mixed
+C09All == Single \cup Props9 \cup Loops \cup Funcs \cup Mixed \cup Shadow9
 ASSUME PrintT(<<"NPROGS", Cardinality(C06All), Cardinality(C09All)>>)
 ASSUME JsonSerialize(IOEnv.GEN_OUT, SetToSeq({[p EXCEPT !.grp = "c06:" \o p.grp] : p \in C06All}) \o SetToSeq({[p EXCEPT !.grp = "c09:" \o p.grp] : p \in C09All}))
 =============================================================================
